@@ -16,7 +16,7 @@ thread_local! {
 }
 /// Journal of released blocks (first JLEN bytes of each block of 16..=4096 bytes), filled inside `dealloc`/`realloc`
 /// while switched on: lets a check ask "was a block holding these bytes released during that call?".
-pub const JLEN: usize = 128; pub const JMAX: usize = 48;
+pub const JLEN: usize = 128; pub const JMAX: usize = 256;
 pub struct Journal { pub n: usize, pub overflow: bool, pub len: [usize; JMAX], pub data: [[u8; JLEN]; JMAX] }
 thread_local! {
     static JOURNAL_ON: Cell<bool> = const { Cell::new(false) };
